@@ -7,6 +7,7 @@ for p in ${PROPS:-C01 C03 C04 C05 C06 C07 C08 C09 C10 C11 C12 C13 C14 C15 C16 C1
   s=$(date +%s)
   VERIF_JOBS=${VERIF_JOBS:-8} ./check $p --tier thorough > /verif/build/thorough_$p.txt 2>&1
   rc=$?
+  [ $rc -eq 0 ] && mkdir -p /verif/evidence_thorough && cp /verif/evidence/$p.json /verif/evidence_thorough/$p.json
   echo "$p rc=$rc wall=$(( $(date +%s) - s ))s $(grep -c '^VIOLATION' /verif/build/thorough_$p.txt) violations; $(grep 'done:' /verif/build/thorough_$p.txt | cut -c1-170)" >> $LOG
 done
 echo ALLDONE >> $LOG
